@@ -91,6 +91,9 @@ func (c *Ctx) Scale(quick, thorough int) int {
 // Hit counts a generator/branch/error-kind bucket for the printed input distribution.
 func (c *Ctx) Hit(bucket string) { c.hist[bucket]++ }
 
+// HitN adds n to a bucket (merging the histogram of a child process).
+func (c *Ctx) HitN(bucket string, n int) { c.hist[bucket] += n }
+
 // Distinct records a canonical case key; returns true when new.
 func (c *Ctx) Distinct(key string) bool {
 	if _, ok := c.seen[key]; ok {
